@@ -301,8 +301,8 @@ Fixpoint last_return (n : node) : option node :=
 Inductive tie_result := TieNotCore | TieNoOutput | TieAgree | TieDiffer.
 
 (** [sem_tie vp hook ast_in ast_out]: rewrite the abstraction of the input's expression with [Sem.rw]
-    from counter 0 and compare with the abstraction of the output's expression. *)
-Definition sem_tie (vp hook : string) (instr lit_ok awc : string -> bool) (ast_in ast_out : node) : tie_result :=
+    from counter 0 (at the root of the visitor: [Sem.rw_root]) and compare with the abstraction of the output's expression. *)
+Definition sem_tie (vp hook : string) (instr lit_ok awc : string -> bool) (plus_on : bool) (ast_in ast_out : node) : tie_result :=
   match last_return ast_in with
   | None => TieNotCore
   | Some ein =>
@@ -314,7 +314,7 @@ Definition sem_tie (vp hook : string) (instr lit_ok awc : string -> bool) (ast_i
           | Some eout =>
               match abstract vp hook (S (node_depth eout)) eout with
               | None => TieDiffer
-              | Some o => if expr_eqb (fst (rw instr lit_ok awc e 0)) o then TieAgree else TieDiffer
+              | Some o => if expr_eqb (rw_root instr lit_ok awc plus_on e) o then TieAgree else TieDiffer
               end
           end
       end
